@@ -242,7 +242,7 @@ def set_upper_bounds(model: Model, bounds: Mapping[str, float], strict: bool = T
     new = []
     for p in model.parameters:
         if p.name in bounds:
-            newparam = Parameter(
+            newparam = Parameter.create(
                 name=p.name, init=p.init, lower=p.lower, upper=bounds[p.name], fix=p.fix
             )
         else:
@@ -287,7 +287,7 @@ def set_lower_bounds(model: Model, bounds: Mapping[str, float], strict: bool = T
     new = []
     for p in model.parameters:
         if p.name in bounds:
-            newparam = Parameter(
+            newparam = Parameter.create(
                 name=p.name, init=p.init, lower=bounds[p.name], upper=p.upper, fix=p.fix
             )
         else:
